@@ -1,6 +1,9 @@
 package e2eb
 
 import (
+	"crypto/rand"
+	"crypto/rsa"
+	"crypto/x509"
 	"errors"
 	"net"
 	"sync"
@@ -11,6 +14,8 @@ import (
 	"go.minekube.com/gate/pkg/edition/java/proto/state"
 	"go.minekube.com/gate/pkg/gate/proto"
 	"go.minekube.com/gate/pkg/util/uuid"
+
+	"verifharness/e2e"
 )
 
 // Client is a fake Minecraft client.
@@ -29,6 +34,7 @@ type Client struct {
 	kicked    bool
 	kickState string
 	threshold int
+	encrypted bool
 
 	closed    chan struct{}
 	closeOnce sync.Once
@@ -87,6 +93,41 @@ func (c *Client) Login(host string, port int) error {
 			}
 			go c.readLoop()
 			return nil
+		case tEncryptionRequest:
+			// online mode: RSA-encrypt a fresh shared secret and the verify token, then AES/CFB8
+			_, body, _ := SplitID(p)
+			er, err := e2e.ParseEncryptionRequest(int(c.Protocol), body)
+			if err != nil {
+				return err
+			}
+			pub, err := x509.ParsePKIXPublicKey(er.PublicKey)
+			if err != nil {
+				return err
+			}
+			rpub, ok := pub.(*rsa.PublicKey)
+			if !ok {
+				return errors.New("not an RSA key")
+			}
+			secret := make([]byte, 16)
+			_, _ = rand.Read(secret)
+			sct, err := rsa.EncryptPKCS1v15(rand.Reader, rpub, secret)
+			if err != nil {
+				return err
+			}
+			tct, err := rsa.EncryptPKCS1v15(rand.Reader, rpub, er.VerifyToken)
+			if err != nil {
+				return err
+			}
+			id, _ := IDOf(state.Login, proto.ServerBound, c.Protocol, &packet.EncryptionResponse{})
+			if err = c.W.WritePayload(MakePayload(id, e2e.EncryptionResponse(int(c.Protocol), sct, tct))); err != nil {
+				return err
+			}
+			if err = c.W.EnableEncryption(secret); err != nil {
+				return err
+			}
+			c.mu.Lock()
+			c.encrypted = true
+			c.mu.Unlock()
 		case tDisconnect:
 			c.mu.Lock()
 			c.kicked, c.kickState = true, "login"
@@ -109,6 +150,13 @@ func (c *Client) state() *state.Registry {
 	c.mu.Lock()
 	defer c.mu.Unlock()
 	return c.st
+}
+
+// Encrypted tells whether the login went through the encryption exchange (online mode).
+func (c *Client) Encrypted() bool {
+	c.mu.Lock()
+	defer c.mu.Unlock()
+	return c.encrypted
 }
 
 // Threshold returns the compression threshold the proxy announced (-1: none).
